@@ -98,6 +98,12 @@ impl<'a> IndexPlanner<'a> {
             return IndexStrategy::EnumBitmap { field };
         }
 
+        // Inequality: membership filters (XOR) can only answer "may contain v"; a zone that holds v
+        // usually also holds rows != v, so no equality index can prune for `!=`.
+        if matches!(operation, Some(CompareOp::Neq)) {
+            return IndexStrategy::FullScan;
+        }
+
         // Range
         if let Some(op) = &operation {
             use CompareOp::*;
